@@ -28,10 +28,10 @@ if [ $NEEDS_BUILD = 1 ]; then
 fi
 TESTS=$(/venv/bin/python -m pytest -q -p no:cacheprovider --timeout=900 -x -q 2>&1 | tail -1)
 TESTS_FULL=$(/venv/bin/python -m pytest -q -p no:cacheprovider --timeout=900 2>&1 | tail -1)
-/venv/bin/python $M/demo.py >/tmp/vm/demo_mut_$S.log 2>&1; DEMO_MUT=$?
+PYTHONPATH=$WT /venv/bin/python $M/demo.py >/tmp/vm/demo_mut_$S.log 2>&1; DEMO_MUT=$?
 git checkout -q -- . ; git clean -fdq -e '*.so' >/dev/null 2>&1
 if [ $NEEDS_BUILD = 1 ]; then cp /repo/asynq/*.so asynq/; fi
-/venv/bin/python $M/demo.py >/tmp/vm/demo_clean_$S.log 2>&1; DEMO_CLEAN=$?
+PYTHONPATH=$WT /venv/bin/python $M/demo.py >/tmp/vm/demo_clean_$S.log 2>&1; DEMO_CLEAN=$?
 cd /
 git -C /repo worktree remove --force $WT >/dev/null 2>&1
 echo "{\"mutant\":\"$M\",\"applies\":true,\"rebuilt\":$NEEDS_BUILD,\"build_ok\":$BUILD_OK,\"tests\":\"$TESTS_FULL\",\"demo_with_change\":$DEMO_MUT,\"demo_without\":$DEMO_CLEAN}"
